@@ -12,3 +12,31 @@ def checkNumDenom (num den : Int) : Except Panic Unit :=
   else .ok ()
 
 end Sqroot.Model
+
+namespace Sqroot.Model
+
+/-- what a root constructor returns, as far as C01/C02 are concerned -/
+inductive RootResult
+  /-- the shared zero number: IsZero, exponent 0, no digits -/
+  | zero
+  /-- a Number backed by the memoizer over the root digit closure for `num/den` -/
+  | root (num den : Nat)
+deriving Repr, DecidableEq
+
+/-- `nRootFrac(num, denom, newManager)`: argument check, zero shortcut, otherwise the lazy root -/
+def nRootFrac (num den : Int) : Except Panic RootResult :=
+  match checkNumDenom num den with
+  | .error p => .error p
+  | .ok () => if num = 0 then .ok .zero else .ok (.root num.toNat den.toNat)
+
+theorem nRootFrac_zero (den : Int) (hden : 0 < den) : nRootFrac 0 den = .ok .zero := by
+  simp [nRootFrac, checkNumDenom, Int.not_le.mpr hden]
+
+theorem nRootFrac_pos (num den : Int) (hnum : 0 < num) (hden : 0 < den) :
+    nRootFrac num den = .ok (.root num.toNat den.toNat) ∧ 0 < num.toNat ∧ 0 < den.toNat := by
+  have h1 : ¬ den ≤ 0 := Int.not_le.mpr hden
+  have h2 : ¬ num < 0 := by omega
+  have h3 : num ≠ 0 := by omega
+  refine ⟨by simp [nRootFrac, checkNumDenom, h1, h2, h3], by omega, by omega⟩
+
+end Sqroot.Model
